@@ -158,6 +158,8 @@ structure PSnap where
   node : Nat
   layout : List Nat
   data : List (Nat × List Int)
+  /-- `layout.location` of the rows (a location = a number; row i of `layout` sits at `locs[i]`) -/
+  locs : List Nat := []
   deriving DecidableEq, Repr, Inhabited
 
 /-- `_writeParams`: `for paramDef in c.p.paramDefs.toWriteToDB(): temp = [c.p.get(paramDef.name, paramDef.default) for c in comps]` -/
@@ -231,6 +233,55 @@ everything, then `history[param][now] = comp.p[param]` (in place if the current 
 def dbiHistoryAll (groups : List PSnap) (st : PState) (dflt : Nat → Int) (serial : Nat) (params : List Nat) : Option Hist :=
   (dbHistoryAll groups st dflt serial params).map
     (fun h => params.foldl (fun a p => setHist a p (st.cycle, st.node) (st.get dflt serial p)) h)
+
+/-! #### histories by LOCATION (`getHistoriesByLocation`) -/
+
+/-- `writeToDB` with the rows' locations recorded -/
+def writePL (st : PState) (dflt : Nat → Int) (layout locs : List Nat) : PSnap :=
+  { writeP st dflt layout with locs := locs }
+
+/-- the snapshot seen by location: the row of a location instead of the row of a serial number -/
+def byLoc (g : PSnap) : PSnap := { g with layout := g.locs }
+
+/-- `Database.getHistoryByLocation(comp, params, timeSteps)` for the location `L` the object occupies now: in every requested
+step the row whose LOCATION is `L` (whatever object sat there; no entry if the location was empty); no live value is added -/
+def dbHistoryByLoc (groups : List PSnap) (dflt : Nat → Int) (L : Nat) (params : List Nat) (steps : List (Nat × Nat)) : Option Hist :=
+  histLoop (groups.map byLoc) L params dflt steps []
+
+/-- `DatabaseInterface.getHistory(comp, params, timeSteps, byLocation=True)`: the current step is taken out of the request and
+answered with the live value of the object passed (`serial`), the rest by location -/
+def dbiHistoryByLoc (groups : List PSnap) (st : PState) (dflt : Nat → Int) (L serial : Nat) (params : List Nat)
+    (steps : List (Nat × Nat)) : Option Hist :=
+  let now := (st.cycle, st.node)
+  if steps.contains now then
+    (dbHistoryByLoc groups dflt L params (steps.erase now)).map
+      (fun h => params.foldl (fun a p => setHist a p now (st.get dflt serial p)) h)
+  else dbHistoryByLoc groups dflt L params steps
+
+/-- one time-step group of `getHistoriesByLocation` for SEVERAL requested locations `req` (in the caller's order): the rows
+whose location is requested, IN LAYOUT ORDER, as (row, location) -/
+def locRows (g : PSnap) (req : List Nat) : List (Nat × Nat) :=
+  (g.locs.zipIdx.filter (fun x => req.contains x.1)).map (fun x => (x.2, x.1))
+
+/-- `histData[locToComp[loc]][paramName][cycle, timeNode] = val` on a per-location table -/
+def setLoc (t : List (Nat × Hist)) (L p : Nat) (k : Nat × Nat) (v : Int) : List (Nat × Hist) :=
+  t.map (fun e => if e.1 == L then (L, setHist e.2 p k v) else e)
+
+/-- the body of the time-step loop of `getHistoriesByLocation`: for each parameter `data = dataSet[rows]` (or the default
+repeated), then `for loc, val in zip(objectLocationsInLayout, data)`: stored under the object AT THAT LOCATION — the values come
+back in layout order, not in the order the objects were passed in -/
+def locGroup (g : PSnap) (req params : List Nat) (dflt : Nat → Int) (t : List (Nat × Hist)) : List (Nat × Hist) :=
+  params.foldl (fun a p =>
+    (locRows g req).foldl (fun a r => setLoc a r.2 p (g.cycle, g.node) (storedValue g r.1 p dflt)) a) t
+
+/-- `Database.getHistoriesByLocation(comps, params, timeSteps)`: one history per requested location (`none` = KeyError) -/
+def locHistories (groups : List PSnap) (req params : List Nat) (dflt : Nat → Int) :
+    List (Nat × Nat) → List (Nat × Hist) → Option (List (Nat × Hist))
+  | [], t => some t
+  | step :: rest, t =>
+    match groups.find? (fun g => (g.cycle, g.node) == step) with
+    | none => none
+    | some g => locHistories groups req params dflt rest (locGroup g req params dflt t)
 
 /-- `HistoryTrackerInterface.getBlockHistoryVal(name, paramName, ts)` without preloaded values: the live value if
 `ts` is the current step and the database has no data for it, else `getHistory(block, [paramName], [ts])[paramName][ts]`
